@@ -554,6 +554,27 @@ where
                     return Err(format!("{what}: after nth({k}) the iterator continues with {rest:?}, expected {:?}", &expected[k + 1..]));
                 }
             }
+            if n <= 4096 {
+                // a partly consumed iterator (k x next()) asked for count() and last()
+                let eaten = k.min(n);
+                let mut it = make();
+                for _ in 0..eaten {
+                    it.next();
+                }
+                let c = it.count();
+                if c != n - eaten {
+                    return Err(format!("{what}: count() after {eaten} x next() = {c}, {} item(s) are left", n - eaten));
+                }
+                let mut it = make();
+                for _ in 0..eaten {
+                    it.next();
+                }
+                let l = it.last().map(&proj);
+                let want = if eaten < n { expected.last() } else { None };
+                if l.as_ref() != want {
+                    return Err(format!("{what}: last() after {eaten} x next() = {l:?}, expected {want:?}"));
+                }
+            }
             let skipped: Vec<T> = make().skip(k).take(bound).map(&proj).collect();
             if skipped != expected[k.min(n)..] {
                 return Err(format!("{what}: skip({k}) yields {skipped:?}, expected {:?}", &expected[k.min(n)..]));
